@@ -530,6 +530,7 @@ func c17r1(c *Ctx) {
 	armed[istioMod+"/pilot/pkg/networking/grpcgen"] = true
 	armed[istioMod+"/pilot/pkg/networking/plugin/authn"] = true
 	armed[istioMod+"/pilot/pkg/security/authz/builder"] = true
+	armed[istioMod+"/pkg/dns/server"] = true
 	if extra := os.Getenv("VERIF_C17_ARM_EXTRA"); extra != "" { // development: list candidates in further packages
 		for _, e := range strings.Split(extra, ",") {
 			armed[istioMod+"/"+e] = true
